@@ -41,6 +41,7 @@ func initValue() {
 		DefWithParameters(1),
 	)
 	Alias(c, "===", "==")
+	Alias(c, "=~", "==")
 	Def(
 		c,
 		"copy",
